@@ -448,6 +448,9 @@ func ruleC09(w *World, r *Report) {
 	ruleC09Mark(w, r)
 	ruleC09MeterCells(w, r)
 	ruleC09SearchList(w, r)
+	ruleC09GateBits(w, r)
+	ruleC09MeterArray(w, r)
+	ruleC09QciTable(w, r)
 }
 
 // symAtPathDeep resolves phis along the path recursively through arithmetic and calls.
@@ -900,4 +903,135 @@ func ruleC09SearchList(w *World, r *Report) {
 		}
 	})
 	r.floor("R09.7 in-place writes of the search list", n, 1)
+}
+
+// ruleC09GateBits (R09.8): the uplink gate of a QER is the uplink gate of the Gate Status IE, the downlink
+// gate the downlink one: qer.ulStatus comes from GateStatusUL() (or result #0 of GateStatusULDL(), which
+// returns uplink first), qer.dlStatus from GateStatusDL() (or result #1).
+func ruleC09GateBits(w *World, r *Report) {
+	const P = "C09"
+	f := w.Fn(P, "pfcpiface.(*qer).parseQER")
+	fn := w.FuncName(f)
+	n := 0
+	for field, want := range map[string][]string{"ulStatus": {"GateStatusUL#0", "GateStatusULDL#0"}, "dlStatus": {"GateStatusDL#0", "GateStatusULDL#1"}} {
+		for _, st := range fieldStores(f, "qer")[field] {
+			n++
+			s := symOf(st.Val).String()
+			okS := false
+			for _, wv := range want {
+				if strings.Contains(s, ")."+wv+"(") || strings.Contains(s, "."+wv+"(") {
+					okS = true
+				}
+			}
+			r.check(okS, "R09.8", fn, "qer."+field+" is the "+ifelse(field == "ulStatus", "uplink", "downlink")+" gate of the Gate Status IE", w.Pos(st.Pos()), s, "qer."+field+" is taken from "+s+": a QER with the uplink gate closed and the downlink gate open is programmed the other way round")
+		}
+	}
+	r.floor("R09.8 gate status stores in parseQER", n, 2)
+}
+
+// ruleC09MeterArray (R09.9): the two meter arrays are indexed by cells of two independent pools. Whatever
+// is written for a meter of one kind — programmed or reset — goes to the array of that kind: in
+// configureApplicationMeter / configureSessionMeter by construction, in resetMeters under the meter-type
+// arm that governs the call. Resetting a session meter in the application array writes "unmetered" over
+// a live session's application QER that happens to use the same index.
+func ruleC09MeterArray(w *World, r *Report) {
+	const P = "C09"
+	appArr := w.ConstInt(P, modPath+"/internal/p4constants", "MeterPreQosPipeAppMeter")
+	sessArr := w.ConstInt(P, modPath+"/internal/p4constants", "MeterPreQosPipeSessionMeter")
+	mtApp, mtSess := w.ConstInt(P, pfcpPkg, "meterTypeApplication"), w.ConstInt(P, pfcpPkg, "meterTypeSession")
+	n := 0
+	expectIn := map[string]int64{"pfcpiface.(*UP4).configureApplicationMeter": appArr, "pfcpiface.(*UP4).configureSessionMeter": sessArr}
+	for name, arr := range expectIn {
+		f := w.Fn(P, name)
+		for _, g := range withClosures(f) {
+			allInstrs(g, func(i ssa.Instruction) {
+				c, ok := i.(*ssa.Call)
+				if !ok || staticCallee(c) == nil || staticCallee(c).Name() != "BuildMeterEntry" {
+					return
+				}
+				n++
+				k, isK := constInt(c.Call.Args[1])
+				r.check(isK && k == arr, "R09.9", name, "the meter is programmed in its own array", w.Pos(c.Pos()), fmt.Sprint(k), fmt.Sprintf("the meter entry is built for array %d, the cells of this function come from the pool of array %d", k, arr))
+			})
+		}
+	}
+	reset := w.Fn(P, "pfcpiface.(*UP4).resetMeters")
+	for _, c := range callsIn(reset, func(c ssa.CallInstruction) bool { return staticCallee(c) != nil && staticCallee(c).Name() == "resetMeter" }) {
+		n++
+		k, isK := constInt(c.Common().Args[1])
+		kind := int64(-1)
+		for _, mt := range []int64{mtApp, mtSess} {
+			mt := mt
+			if onlyVia(reset, c.(ssa.Instruction), func(a, b *ssa.BasicBlock) bool {
+				x, op, y, ok := edgeFact(a, b)
+				kk, isKK := constInt(y)
+				return ok && op == token.EQL && isKK && kk == mt && strings.HasSuffix(symOf(x).String(), ".meterType")
+			}) {
+				kind = mt
+			}
+		}
+		want := appArr
+		if kind == mtSess {
+			want = sessArr
+		}
+		r.check(isK && kind >= 0 && k == want, "R09.9", w.FuncName(reset), "a meter is reset in the array of its kind", w.Pos(c.Pos()), fmt.Sprintf("array %d under meterType %d", k, kind), fmt.Sprintf("under meterType == %d the reset goes to meter array %d instead of %d: the cells of the other kind's array at the same indices — possibly a live session's meter — are overwritten with 'unmetered', and the released meter keeps its old rate", kind, k, want))
+	}
+	r.floor("R09.9 meter array uses", n, 5)
+}
+
+// ruleC09QciTable (R09.10): the burst parameters BESS uses for a QER are the configured ones: every entry
+// of qci_qos_config ends up in qciQosMap (each iteration of the loop stores its entry — the last one
+// wins, none is skipped), and the built-in fallback for QCI 0 is installed only when the configuration
+// has none (under the "not found" edge of a lookup of key 0, after the loop).
+func ruleC09QciTable(w *World, r *Report) {
+	const P = "C09"
+	f := w.Fn(P, "pfcpiface.(*bess).readQciQosMap")
+	fn := w.FuncName(f)
+	loops := rangeLoopsOver(f, "QciQosConfig")
+	r.floor("R09.10 loop over the configured QCI entries", len(loops), 1)
+	isConfStore := func(i ssa.Instruction) bool {
+		mu, ok := i.(*ssa.MapUpdate)
+		return ok && strings.HasSuffix(symOf(mu.Map).String(), "qciQosMap") && strings.Contains(symOf(mu.Key).String(), "QCI")
+	}
+	for _, l := range loops {
+		r.check(everyIteration(f, l[1], l[0], isConfStore), "R09.10", fn, "every configured QCI entry is stored", w.Pos(f.Pos()), "map update on every iteration", "an iteration over qci_qos_config can skip its entry (e.g. because the key is already present): the operator's entry — in particular \"qci\": 0, the fallback for unlisted QFIs and every session QER — is dropped in favour of what was there before")
+	}
+	n := 0
+	allInstrs(f, func(i ssa.Instruction) {
+		switch x := i.(type) {
+		case *ssa.MapUpdate:
+			if _, fresh := x.Map.(*ssa.MakeMap); !fresh && !strings.HasSuffix(symOf(x.Map).String(), "qciQosMap") {
+				return
+			}
+			if k, isK := constInt(x.Key); isK && k == 0 {
+				n++
+				g := onlyVia(f, x, func(a, b *ssa.BasicBlock) bool {
+					v, truth, ok := boolEdge(a, b)
+					if !ok || truth {
+						return false
+					}
+					ex, isEx := v.(*ssa.Extract)
+					if !isEx || ex.Index != 1 {
+						return false
+					}
+					lk, isLk := ex.Tuple.(*ssa.Lookup)
+					if !isLk || !strings.HasSuffix(symOf(lk.X).String(), "qciQosMap") {
+						return false
+					}
+					kk, isKK := constInt(lk.Index)
+					return isKK && kk == 0
+				})
+				after := true
+				for _, l := range loops {
+					if !l[0].Dominates(x.Block()) || reachesBlock(x.Block(), l[0]) {
+						after = false
+					}
+				}
+				r.check(g && after, "R09.10", fn, "the built-in QCI 0 entry only fills a gap the configuration left", w.Pos(x.Pos()), "after the loop, under 'key 0 not found'", "the built-in fallback for QCI 0 is installed "+ifelse(after, "without checking that the configuration has none", "before the configuration is read")+": a configured \"qci\": 0 entry does not take effect")
+			}
+		case *ssa.MakeMap:
+			// a map literal with a key-0 entry is a store before the loop as well: handled through its MapUpdate
+		}
+	})
+	r.floor("R09.10 built-in fallback entry", n, 1)
 }
